@@ -9,7 +9,7 @@ c = Check('C15')
 # ---- E2: stream identity from an arbitrary prior static state (CBMC, z3 back end)
 src = os.path.join(build.VERIF, 'cbmc', 'c15_stream.c')
 has_flip = 'flip_bitpos' in open(build.REPO + '/src/cmb_random.c').read()
-e2.run_harness(c, c.d, 'stream-identity-K3', src, ['K=3'] + (['HAVE_FLIP_STATICS=1'] if has_flip else []), unwind=21, backend=('--z3',), timeout=600, link_lib=False,
+e2.run_harness(c, c.d, 'stream-identity-K3', src, ['K=3'] + (['HAVE_FLIP_STATICS=1'] if has_flip else []), unwind=21, backend=('--z3',), timeout=600, link_lib=True,
                extra_src=[])
 # ---- H4: every mutable static of the generator unit is thread-local (syntactic, on freshly emitted IR)
 import irparse
